@@ -296,7 +296,12 @@ fn check_case(ctx: &mut Ctx, t: &RpkiTable, vrps: &[Vrp], r: &Route, o: Origin, 
         // Condition::Rpki through apply_import with the same table
         for (st, asg) in pp.assignments.iter() {
             let mut nh = None;
-            let res = guard(|| table::apply_import(asg, Some(t), &ctx.src, &nlri, &attrs, &mut nh));
+            // as TableManager::apply_import does: `policy.needs_rpki.then(|| rpki table)`
+            let rpki_arg = if asg.needs_rpki { Some(t) } else { None };
+            if asg.policies.len() > 1 {
+                ctx.rep.count("policy-condition-evals-accumulated-assignment");
+            }
+            let res = guard(|| table::apply_import(asg, rpki_arg, &ctx.src, &nlri, &attrs, &mut nh));
             match res {
                 Ok((filtered, _)) => {
                     ctx.rep.count("policy-condition-evals");
@@ -372,7 +377,25 @@ fn build_policy_probe() -> PolicyProbe {
         let a = pt
             .build_assignment(None, "a", table::PolicyDirection::Import, table::Disposition::Accept, vec!["p".into()])
             .expect("build_assignment");
-        assignments.push((st, a));
+        assignments.push((st, a.clone()));
+        // the same condition inside an assignment built by accumulation (AddPolicyAssignment
+        // called twice), in both orders, with a second policy that has no RPKI condition and
+        // never decides (it matches nothing): the daemon hands the VRP table to the policy
+        // only when the assignment says it needs it
+        pt.add_statement("never", vec![table::ConditionConfig::Origin(77)], Some(table::Disposition::Reject), table::Actions::default())
+            .expect("add_statement");
+        pt.add_policy("q", vec!["never".into()]).expect("add_policy");
+        let rpki_then_plain = pt
+            .build_assignment(Some(&a), "a", table::PolicyDirection::Import, table::Disposition::Accept, vec!["q".into()])
+            .expect("build_assignment (accumulate q)");
+        assignments.push((st, rpki_then_plain));
+        let plain = pt
+            .build_assignment(None, "a", table::PolicyDirection::Import, table::Disposition::Accept, vec!["q".into()])
+            .expect("build_assignment q");
+        let plain_then_rpki = pt
+            .build_assignment(Some(&plain), "a", table::PolicyDirection::Import, table::Disposition::Accept, vec!["p".into()])
+            .expect("build_assignment (accumulate p)");
+        assignments.push((st, plain_then_rpki));
     }
     PolicyProbe { assignments }
 }
